@@ -19,7 +19,7 @@ import re
 import sys
 import time
 
-LINE_POOL = ["alpha", "", "žluťoučký kůň", "日本語のテキスト", "😀 emoji", "  padded  ", "tab\there", "x" * 300, "0", "-1",
+LINE_POOL = ["alpha", "", "cr\rinside", "dos line ending\r", "žluťoučký kůň", "日本語のテキスト", "😀 emoji", "  padded  ", "tab\there", "x" * 300, "0", "-1",
              "a,b,c", "quote\"s", "ěščřžýáíé", "long " * 40, "end"]
 
 
@@ -93,7 +93,7 @@ def do_reads(obj, case, lines, who, nreads, seed, log, first=None):
             if v == "MapAccessFile":
                 i = rng.randrange(n) if forced is None else forced % n
                 forced_used = i
-                got, want = obj[f"k{i}"], lines[i] + "\n"
+                got, want = obj[f"k{i}"], (case.get("_single_process_ref") or {}).get(i, lines[i] + "\n")
                 desc = f"m['k{i}']"
             elif op < 0.75 or forced is not None:
                 i = rng.randrange(-n, n) if forced is None else forced % n
@@ -136,6 +136,13 @@ def run_workload(case, d, log, label_child=None):
     obj = open_object(case, path, lines)
     obj.open()
     nreads = case.get("reads", 60)
+    if case["variant"] == "MapAccessFile":
+        # the reference of the statement: what a single process reads (MapAccessFile opens its file with newline
+        # translation, so a line holding a carriage return is not returned byte for byte); taken before any fork
+        case = dict(case)
+        case["_single_process_ref"] = {i: obj[f"k{i}"] for i in range(len(lines))}
+        log("single_process_reference", n=len(lines),
+            differs_from_raw=sum(1 for i, l in enumerate(lines) if case["_single_process_ref"][i] != l + "\n"))
     # the parent reads before forking: the inherited handle has a position and a filled buffer
     do_reads(obj, case, lines, "parent-before-fork", case.get("parent_reads_before", 5), case["seed"] + 1, log)
     last_parent = None
@@ -147,6 +154,35 @@ def run_workload(case, d, log, label_child=None):
     kids = []
     style = case.get("fork_style", "os.fork")
     K = case["children"]
+    gate = None
+    side = None
+    if case.get("thread_reads_during_fork") is not None:
+        # a second thread of the parent (a prefetcher) is in the middle of a read while the main thread forks: it is held at
+        # the k-th statement it executes inside the library's read path (a gate in the line monitor, so it is not inside
+        # any C-level I/O call and holds no interpreter-internal lock) until all children are forked
+        import threading
+        from vf import instr
+        if instr.S.active:
+            gate = {"skip": int(case["thread_reads_during_fork"]), "used": False, "arrived": threading.Event(),
+                    "release": threading.Event(), "timeout": 30}
+            instr.S.gates["T"] = gate
+            for co, (qn, first, fn) in instr.S.codes.items():
+                if qn.endswith(("_read_line", "_read_next_line", "_file_seek", "reopen_if_needed", "MapAccessFile.__getitem__")):
+                    for rel in range(0, 40):
+                        for occ in range(1, 6):
+                            instr.S.plan[("T", qn, rel, occ)] = ("gate", "T")
+            stop_side = threading.Event()
+
+            def side_main():
+                k = 0
+                while not stop_side.is_set() and k < 400:
+                    do_reads(obj, case, lines, "parent-thread", 1, case["seed"] * 7 + k, lambda *a, **kw: None)
+                    k += 1
+                log("side_thread_done", reads=k)
+            side = threading.Thread(target=side_main, name="vf:T")
+            side.start()
+            gated = gate["arrived"].wait(5)
+            log("side_thread_gated", gated=bool(gated), site=list(gate.get("site") or []))
 
     def child_main(i, depth=0):
         if label_child:
@@ -180,6 +216,13 @@ def run_workload(case, d, log, label_child=None):
                     code = 1
                 os._exit(code)
             kids.append(pid)
+    if side is not None:
+        # the children are forked; the thread may go on, finishes its read and stops before the main thread reads itself
+        # (two threads of ONE process sharing the handle is not what the property is about)
+        gate["release"].set()
+        stop_side.set()
+        side.join(30)
+        instr.S.gates.pop("T", None)
     do_reads(obj, case, lines, "parent-concurrent", nreads, case["seed"] + 2, log)
     codes = []
     for k in kids:
